@@ -245,12 +245,20 @@ def generate(prop, rng, tier):
         elif r < 0.88 and geoms:
             g = rng.choice(sorted(geoms)) if rng.random() < 0.85 else "nope"
             ops.append({"op": "set_attr", "geom": g, "value": rng.choice(["PART", "my geometry", "x"])})
+        elif r < 0.93:
+            # the owner updates its mesh frame in place (next load state: new nodal values; or a deformed mesh)
+            ops.append({"op": "mutate_mesh", "mesh": rng.choice(sorted(meshes)), "what": rng.choice(["nodal", "nodal", "coords", "elnodal"]),
+                        "seed": rng.randint(0, 10 ** 6)})
         else:
             ops.append({"op": "read"})
     ops.append({"op": "read"})
-    tr = {"world": NAME, "meshes": meshes, "ops": ops, "faults": None}
+    tr = {"world": NAME, "meshes": meshes, "ops": ops, "faults": None,
+          # the user keeps ONE DataFrame object per mesh and hands it to every call (and changes it in place
+          # between calls), or builds a fresh frame for every call
+          "kept_frames": rng.random() < 0.5,
+          "level_order": rng.choice(["en", "en", "ne"])}
     mode = rng.random()
-    cand = [i for i, o in enumerate(ops) if o["op"] not in ("read", "set_attr")]
+    cand = [i for i, o in enumerate(ops) if o["op"] not in ("read", "set_attr", "mutate_mesh")]
     if mode < 0.7 and cand:
         k = rng.choice(cand)
         if tier == "thorough":
@@ -261,6 +269,38 @@ def generate(prop, rng, tier):
 
 
 # ------------------------------------------------------------------ frames
+
+class Frames:
+    """Frame policy of a run: fresh frame per call, or one kept object per mesh that is mutated in place."""
+
+    def __init__(self, kept, level_order):
+        self.kept = kept
+        self.level_order = level_order
+        self.cache = {}
+
+    def get(self, key, mesh, sabotage=None):
+        if sabotage or not self.kept:
+            return self._order(mesh_frame(mesh, sabotage))
+        if key not in self.cache:
+            self.cache[key] = self._order(mesh_frame(mesh))
+        return self.cache[key]
+
+    def _order(self, df):
+        if self.level_order == "ne":
+            df = df.swaplevel()            # levels are identified by name: (node_id, element_id) is as valid
+        return df
+
+    def mutated(self, key, mesh):
+        """The mesh spec has been changed: update the kept frame IN PLACE (same object)."""
+        if key in self.cache:
+            new = self._order(mesh_frame(mesh))
+            df = self.cache[key]
+            for c in new.columns:
+                df[c] = new[c].to_numpy()
+
+
+FRAMES = [None]
+
 
 def mesh_frame(mesh, sabotage=None):
     rows = ref.mesh_rows(mesh)
@@ -295,20 +335,24 @@ def call_real(exp, op, meshes):
     kind = op["op"]
     mesh = meshes[op["mesh"]]
     try:
+        fr = FRAMES[0]
         if kind == "add_geometry":
-            exp.add_geometry(op["geom"], mesh_frame(mesh, op.get("sabotage")))
+            exp.add_geometry(op["geom"], fr.get(op["mesh"], mesh, op.get("sabotage")))
         elif kind == "add_set":
             ids = pd.Index([int(i) for i in op["ids"]])
             f = exp.add_node_set if op["kind"] == "n" else exp.add_element_set
-            f(op["geom"], ids, mesh_frame(mesh), op["name"])
+            f(op["geom"], ids, fr.get(op["mesh"], mesh), op["name"])
         elif kind == "add_variable":
-            df = mesh_frame(mesh)
+            df = fr.get(op["mesh"], mesh)
+            plain = not (op.get("block_perm") or op.get("drop_columns") or (op["columns"] is not None and op["columns"] != SRC_COLUMNS[op["source"]]))
+            if not plain:
+                df = df.copy()
             if op.get("block_perm"):
                 # the same mesh as another valid frame: element blocks in another row order
                 import random as _r
                 eids = list(dict.fromkeys(int(e) for e in df.index.get_level_values("element_id")))
                 _r.Random(int(op["block_perm"])).shuffle(eids)
-                df = pd.concat([df.xs(e, level="element_id", drop_level=False) for e in eids])
+                df = pd.concat([df[df.index.get_level_values("element_id") == e] for e in eids])
             src_cols = SRC_COLUMNS[op["source"]]
             cols = op["columns"]
             if cols is not None and cols != src_cols:
@@ -345,7 +389,7 @@ def model_ok(model, op, meshes):
     if kind == "add_set":
         return model.set_call_ok(op["geom"], op["kind"], op["ids"], mesh, op["name"])
     if kind == "add_variable":
-        if op["geom"] in model.geoms and model.geoms[op["geom"]] is not mesh:
+        if op["geom"] in model.geoms and model.geoms[op["geom"]]["elements"] != mesh["elements"]:
             # a variable written from another mesh than the geometry's is not a valid input
             return None
         src_cols = SRC_COLUMNS[op["source"]]
@@ -673,8 +717,18 @@ def _run(trace, out, log, d, seam):
         return
     model = ref.Model()
     faults = trace.get("faults")
+    FRAMES[0] = Frames(bool(trace.get("kept_frames")), trace.get("level_order", "en"))
+    if trace.get("level_order") == "ne":
+        out.count("probe:node_element_level_order")
     for k, op in enumerate(ops):
         out.steps += 1
+        if op["op"] == "mutate_mesh":
+            if op["mesh"] in meshes:
+                _mutate_mesh(meshes, op, model)
+                FRAMES[0].mutated(op["mesh"], meshes[op["mesh"]])
+                out.count("op:mutate_mesh_in_place" if FRAMES[0].kept else "op:mutate_mesh")
+                log.add("op", k, "mutate_mesh", op["what"])
+            continue
         if op["op"] == "read":
             if not verify(path, model, out, log, k):
                 return
@@ -728,6 +782,34 @@ def _run(trace, out, log, d, seam):
             out.count("raise:" + type(err).__name__)
         if not verify(path, model, out, log, k, absent=None if err is None else op_target(op), deep=(err is None)):
             return
+
+
+def _mutate_mesh(meshes, op, model):
+    """New values in the caller's mesh.  What has been written to the file keeps the values it was written
+    with: the model holds its own copy of a mesh spec from the moment a call is acknowledged."""
+    import random as _r
+    rr = _r.Random(int(op["seed"]))
+    old = meshes[op["mesh"]]
+    new = copy.deepcopy(old)
+    if op["what"] == "nodal":
+        for src in new["nodal"]:
+            for n in new["nodal"][src]:
+                new["nodal"][src][n] = [v + rr.choice([1.0, -2.5, 100.0]) for v in new["nodal"][src][n]]
+    elif op["what"] == "elnodal":
+        for src in new["elnodal"]:
+            new["elnodal"][src] = [[v * 0.5 + rr.choice([0.0, 3.0]) for v in row] for row in new["elnodal"][src]]
+    else:
+        for n, c in new["coords"].items():
+            if new["z"] == "const":
+                new["coords"][n] = [c[0] + 0.25, c[1] - 1.0, c[2]]
+            else:
+                new["coords"][n] = [x + rr.choice([0.25, -1.0]) for x in c]
+        if new["z"] == "vary":
+            zs = [c[2] for c in new["coords"].values()]
+            if all(z == zs[0] for z in zs):
+                k0 = sorted(new["coords"])[0]
+                new["coords"][k0][2] += 1.0
+    meshes[op["mesh"]] = new        # the model keeps referring to the old spec objects for what is already written
 
 
 def _brief(op, meshes):
@@ -935,7 +1017,7 @@ def describe(prop):
                             "a variable is written from the same mesh frame as its geometry; nodal variables are consistent per node; ids within int32; unique string set names",
                             "dtypes are not compared; element type ids stored in the file are not part of the round trip through the public importer",
                             "calls the model considers invalid but the exporter accepts end the run without alarm (C20 does not say which calls must raise)"],
-            "required_probes": ["fault:before:create_group", "fault:before:create_dataset", "fault:before:attr_create", "fault:after:create_group",
+            "required_probes": ["op:mutate_mesh_in_place", "probe:node_element_level_order", "fault:before:create_group", "fault:before:create_dataset", "fault:before:attr_create", "fault:after:create_group",
                                 "fault:after:create_dataset", "fault:after:attr_create", "probe:retry_after_fault_succeeded", "probe:variable_read_back", "probe:set_filtered", "probe:filter_then_join"]}
 
 
